@@ -415,16 +415,26 @@ class C19(P.Property):
                 if not files_ok(si):
                     break
             if not viol:
+                nst = len(plan["steps"])
                 if closed:
-                    a = cls.open(path)
-                    closed = False
-                    reopened = True
-                full_check(len(plan["steps"]), "final")
+                    o = outcome(lambda: cls.open(path))
+                    if o[0] != "ok":
+                        viol.append(V("C19.reopen", "UNUSABLE", f"final open after close failed: {o}", step=nst))
+                    else:
+                        a = o[1]
+                        closed = False
+                        reopened = True
+                if not viol:
+                    full_check(nst, "final")
                 if not viol:
                     a.close()
-                    a = cls.open(path)
-                    full_check(len(plan["steps"]), "final, after close and reopen")
-                files_ok(len(plan["steps"]))
+                    o = outcome(lambda: cls.open(path))
+                    if o[0] != "ok":
+                        viol.append(V("C19.reopen", "UNUSABLE", f"final open after close failed: {o}", step=nst))
+                    else:
+                        a = o[1]
+                        full_check(nst, "final, after close and reopen")
+                files_ok(nst)
         finally:
             try:
                 a.close()
